@@ -15,6 +15,7 @@ import uuid
 import common
 from common import coq_list, coq_z
 
+TAG = "C13_%d" % os.getpid()    # scratch-file prefix in coq/build, unique per process
 THEOREMS = ["C13_inv", "C13_history", "C13_outputs", "C13_duplicate_rejected", "C13_add_accepted",
             "C13_removal", "C13_pop", "C13_clear", "C13_iteration", "C13_mux_first", "C13_mux_absent",
             "C13_generate_id", "C13_mux_stores_finite", "C13_candidates_distinct", "C13_quote_clean",
@@ -305,7 +306,9 @@ def gen_theme(rng):
     # an Identifiable cannot carry 0x1f (AASd-130), although _quote_iri_segment lets it through
     cands = [c for c in cands if all(ord(ch) >= 32 and ord(ch) != 127 for ch in c)]
     nid = rng.randint(2, 4)
-    idpool = rng.sample(cands, min(4, len(cands)))
+    # the first proposal's plain and _0001 candidates are usually taken, so that the generator has to count
+    head = [c for c in cands[:2] if rng.random() < .8]
+    idpool = head + rng.sample([c for c in cands if c not in head], min(4, len(cands)) - len(head))
     idpool = list(dict.fromkeys(idpool))[:nid]
     nobj = rng.randint(len(idpool) + 1, len(idpool) + 3)
     pool = [[i, t % 3] for t, i in enumerate(idpool)]
@@ -325,13 +328,19 @@ def gen_case(rng, maxlen):
     ops = []
     if rng.random() < .85:
         ops.append(["M", [rng.randrange(n) for _ in range(rng.randint(1, n + 1))]])
-    L = rng.randint(2, maxlen)
+    if gens and rng.random() < .7:      # fill the generator's provider, so that candidates are taken
+        sel = gens[0][1]
+        k0 = sel if sel < n else (ops[0][1][0] if ops and ops[0][1] else 0)
+        for t in range(nobj):
+            if rng.random() < .6:
+                ops.append(["S", k0, "add", t])
+    L = rng.randint(2, maxlen) + len(ops)
     while len(ops) < L:
         r = rng.random()
         if r < .06:
             ops.append(["M", [rng.randrange(n) for _ in range(rng.randint(0, n + 1))]])
         elif r < .22 and gens:
-            ops.append(["G", rng.randrange(len(gens)), rng.choice(props)])
+            ops.append(["G", rng.randrange(len(gens)), props[0] if rng.random() < .6 else rng.choice(props)])
         else:
             k = rng.randrange(n)
             kind = rng.choices(["add", "discard", "remove", "pop", "clear", "update", "ior", "getid", "get",
@@ -428,7 +437,7 @@ def coq_case(case, trace):
 
 def model_trace(case):
     pool, gens, ops = coq_case_parts(case)
-    return common.coq_eval("C13", PRELUDE, f"wtrace {pool} (winit (n {case['nstores']}) "
+    return common.coq_eval(TAG, PRELUDE, f"wtrace {pool} (winit (n {case['nstores']}) "
                            f"(map (fun p => (fst p, n (snd p))) {gens})) {ops}")
 
 
@@ -524,9 +533,9 @@ def run(chk):
             break
     chk.count("uuid_calls", 200)
 
-    bad, errs = common.run_mismatch_shards("C13", PRELUDE, terms, "check_case", shard=400)
+    bad, errs = common.run_mismatch_shards(TAG, PRELUDE, terms, "check_case", shard=400)
     n1 = common.run_mismatch_shards.evaluated
-    bad2, errs2 = common.run_mismatch_shards("C13q", PRELUDE, qterms, "check_quote", shard=4000)
+    bad2, errs2 = common.run_mismatch_shards(TAG + "q", PRELUDE, qterms, "check_quote", shard=4000)
     chk.traces = n1 + common.run_mismatch_shards.evaluated - len(bad) - len(bad2)
     for e in errs + errs2:
         chk.tie_broken("correspondence-run", e)
@@ -538,7 +547,7 @@ def run(chk):
             cands = [c for c in cands if c["ops"]]
             if not cands:
                 break
-            b, e = common.run_mismatch_shards("C13s", PRELUDE, [coq_case(c, run_sdk(c)[0]) for c in cands],
+            b, e = common.run_mismatch_shards(TAG + "s", PRELUDE, [coq_case(c, run_sdk(c)[0]) for c in cands],
                                               "check_case", shard=400)
             if e or not b:
                 break
